@@ -531,6 +531,12 @@ func c15(c *core.Ctx) {
 		}
 		c.EndRule()
 	}
+
+	// ---------------------------------------------------------------- R5 (shared)
+	// "looking up a name returns exactly what is registered under it" at the moment of the call: the transports
+	// keep no copy of what the registry answered earlier (a lookup cache, negative entries included, goes stale
+	// with the next registration): nothing reachable from a call stores into a long-lived object (C01/R1)
+	c.Borrow("C01", map[string]string{"R1": "R5"}, c01)
 }
 
 // mayPanicExplicitly: fn (a module function) contains an explicit panic, or
